@@ -58,13 +58,14 @@ def gen(rng, tier):
         clients.append(ops)
     if rng.random() < 0.5:
         clients[0].insert(0, [rng.choice(["cb", "cb", "cbraise"])])   # a callback registered up front
-    if rng.random() < 0.35:
+    mapped = kind in ("f_map", "f_flat_map", "map", "flat_map")
+    if rng.random() < (0.6 if mapped else 0.35):
         # window family: callbacks registered first, then a cancel() placed inside a window of user
         # code (callable / poll function / another callback running), racing whatever completes the
         # future there; a second client observes or waits
-        own = ["fn-enter", "pre-complete"] if kind in ("f_map", "f_flat_map", "map", "flat_map") else ["pre-complete"] if kind in COMB_SUBJECTS else (["poll-final", "poll-enter", "call-exit"] if kind == "poll" else ["call-exit", "call-exit", "call-enter"])
+        own = ["fn-enter", "fn-enter", "fn-enter", "pre-complete"] if mapped else ["pre-complete"] if kind in COMB_SUBJECTS else (["poll-final", "poll-enter", "call-exit"] if kind == "poll" else ["call-exit", "call-exit", "call-enter"])
         t1 = rng.choice(own + own + triggers)
-        clients = [[["cb"]] * rng.choice([0, 1, 2]) + [["await", t1], [rng.choice(["cancel", "cancel", "cb", "cbraise"])]],
+        clients = [[["cb"]] * rng.choice([0, 1, 2]) + [["await", t1], [rng.choice(["cancel", "cancel", "cb", "cb", "cb", "cbraise"])]],
                    [["await", rng.choice(own + triggers)], [rng.choice(["cb", "cb", "cancel", "result", "done", "wait"])]]]
     spec["clients"] = clients
     spec["sim"] = runner.draw_sim_cfg(rng, est=500, stall_ok=True)
